@@ -79,3 +79,60 @@ fn h_udp_encode_decode() {
         assert!(h.source == sp && h.destination == dp && h.length == len);
     }
 }
+
+// ---------------------------------------------------------------------------
+// compute_checksum configuration (C18): UDP datagrams with a payload of 0..=3 octets (BOUNDED payload: all contents,
+// even / odd / empty), all ports and both addresses symbolic; RFC 768 / RFC 1071 reference in 32-bit arithmetic.
+// ---------------------------------------------------------------------------
+/// one's-complement sum of pseudo header + UDP header (checksum field as given) + payload zero-padded to a word
+#[cfg(feature = "compute_checksum")]
+fn rfc768_sum(h: &[u8; 8], pay: &[u8; 3], n: usize, s: &[u8; 4], d: &[u8; 4]) -> u16 {
+    let mut t: u32 = 0;
+    t += be16(s[0], s[1]) as u32 + be16(s[2], s[3]) as u32 + be16(d[0], d[1]) as u32 + be16(d[2], d[3]) as u32;
+    t += 17 + (8 + n) as u32;
+    t += be16(h[0], h[1]) as u32 + be16(h[2], h[3]) as u32 + be16(h[4], h[5]) as u32 + be16(h[6], h[7]) as u32;
+    if n >= 1 { t += be16(pay[0], if n >= 2 { pay[1] } else { 0 }) as u32; }
+    if n >= 3 { t += be16(pay[2], 0) as u32; }
+    t = (t & 0xffff) + (t >> 16);
+    t = (t & 0xffff) + (t >> 16);
+    t as u16
+}
+
+//# id=checksum.emitted_datagram_verifies fns=build_udp_header+UdpHeader::from_bytes_ipv4+Checksum::* props=C18 kind=bounded bound=payload_of_0_to_3_octets_all_contents features=compute_checksum pair=
+// every emitted datagram verifies under the RFC 1071 rule over pseudo header, header and (odd or even) payload,
+// never carries the 'no checksum' value 0x0000 (RFC 768), and is accepted by the decoder
+#[cfg(feature = "compute_checksum")]
+#[cfg_attr(kani, kani::proof)]
+#[cfg_attr(kani, kani::unwind(10))]
+#[cfg_attr(vx_replay, test)]
+fn h_ck_udp_emit_verifies() {
+    let (sp, dp): (u16, u16) = (any(), any());
+    let (s, d): ([u8; 4], [u8; 4]) = (any(), any());
+    let pay: [u8; 3] = any();
+    let n = (any::<u8>() % 4) as usize;
+    let (sa, da) = (Ipv4Address::new(s), Ipv4Address::new(d));
+    let out = build_udp_header(sa, sp, da, dp, pay.into_iter().take(n), n).unwrap();
+    assert!(out.len() == 8);
+    let h: [u8; 8] = [out[0], out[1], out[2], out[3], out[4], out[5], out[6], out[7]];
+    assert!(rfc768_sum(&h, &pay, n, &s, &d) == 0xffff);
+    assert!(!(h[6] == 0 && h[7] == 0));
+    let r = UdpHeader::from_bytes_ipv4(h.into_iter().chain(pay.into_iter().take(n)), 8 + n, sa, da);
+    assert!(r.is_ok());
+}
+
+//# id=checksum.decoder_accepts_conforming_rejects_corruption fns=UdpHeader::from_bytes_ipv4+Checksum::* props=C18 kind=bounded bound=payload_of_0_to_3_octets_all_contents features=compute_checksum tier=thorough pair=
+// a datagram with a computed checksum (field != 0) whose length field is right is accepted iff it verifies
+#[cfg(feature = "compute_checksum")]
+#[cfg_attr(kani, kani::proof)]
+#[cfg_attr(kani, kani::unwind(10))]
+#[cfg_attr(vx_replay, test)]
+fn h_ck_udp_accept_iff_verifies() {
+    let h: [u8; 8] = any();
+    let (s, d): ([u8; 4], [u8; 4]) = (any(), any());
+    let pay: [u8; 3] = any();
+    let n = (any::<u8>() % 4) as usize;
+    vx_assume!(be16(h[4], h[5]) as usize == 8 + n);
+    vx_assume!(!(h[6] == 0 && h[7] == 0));
+    let r = UdpHeader::from_bytes_ipv4(h.into_iter().chain(pay.into_iter().take(n)), 8 + n, Ipv4Address::new(s), Ipv4Address::new(d));
+    assert_eq!(r.is_ok(), rfc768_sum(&h, &pay, n, &s, &d) == 0xffff);
+}
